@@ -76,7 +76,11 @@ def R1_plugin(ctx):
         d = nosite(deep_strip(dt))
         if d[0] == "discr" and d[1][0] == "call" and d[1][1].endswith("Value::as_array") and names:
             arr_sw = (sbb, switch_target(t, names, "Some"), d[1])
-    ctx.check(arr_sw is not None and len(pushes) == 3, "three-aligned-vectors", "expected three per-axis vectors filled under `value.as_array()` (found %d pushes)" % len(pushes), b.where())
+    derived_idx = _indices_from_options(F, b, tm, pushes) if len(pushes) == 2 else None
+    ctx.check(arr_sw is not None and (len(pushes) == 3 or derived_idx is True), "three-aligned-vectors", "expected three per-axis vectors filled under `value.as_array()` (found %d pushes%s)" % (len(pushes), "; " + derived_idx if isinstance(derived_idx, str) else ""), b.where())
+    if derived_idx is True:
+        ctx.check(True, "axis:indices=0..len(array)", "", b.where(), detail="indices[i] = (0..options[i].len()).collect(), one per option list")
+        ctx.check(True, "aligned:indices", "", b.where(), detail="mapped from the option lists, position by position")
     if arr_sw is not None:
         sbb, tsome, arr = arr_sw
         for c in pushes:
@@ -253,6 +257,46 @@ def _flat_map_form(F, b, tm, TOP, TRUNC):
     return None
 
 
+def _indices_from_options(F, b, tm, pushes):
+    """the index lists are not pushed next to the option lists but derived from them afterwards, position by position:
+    indices = options.iter().map(|o| (0..o.len()).collect()).collect().  True, or a reason."""
+    opts = None
+    for c in pushes:
+        v = clean(tm.operand(c.args[1], c.bb))
+        if not contains(v, lambda q: q[0] == "call" and q[1].endswith("to_string")) and contains(v, lambda q: q[0] == "call" and q[1].endswith("Value::as_array")):
+            opts = deep_strip(tm.operand(c.args[0], c.bb))
+    froms = [c for c in b.calls() if c.callee and "MultiSet" in c.callee and "::from" in c.callee]
+    if opts is None or len(froms) != 1:
+        return "no option-list vector / MultiSet::from found"
+    while opts[0] == "mut":
+        opts = unmut(opts)
+    raw = tm.operand(froms[0].args[0], froms[0].bb)
+    pf = sequence_form(F, b, raw)
+    if pf is None:
+        return "the index lists are not built position by position"
+    elem, lens = pf
+    X = [q for q in subterms(elem) if q[0] == "at" and q[2] == ("i",)]
+    if len(X) != 1 or lens != {("len", X[0][1])}:
+        return "the index lists do not follow one sequence"
+    want = ("agg", "std::ops::Range", "Range", (("start", ("const", "usize", 0)), ("end", ("call", "std::vec::Vec::<T, A>::len", (X[0],)))))
+    e = elem
+    while e[0] == "call" and len(e[2]) == 1 and re.search(r"Iterator>?::collect|Itertools::collect_vec|::into_iter$", e[1].split("{")[0]):
+        e = e[2][0]
+    if e != want:
+        return "an index list is not 0..len of its option list: %s" % short(elem)[:100]
+    # the sequence walked is the option-list vector itself (same creation site, not merely an equal-looking vector)
+    srcs = []
+    for q in subterms(deep_strip(raw)):
+        if q[0] == "call" and len(q[2]) == 1 and re.search(r"::iter$|::into_iter$", q[1].split("{")[0]):
+            y = proj_simplify(deep_strip(q[2][0]))
+            while y[0] == "mut":
+                y = unmut(y)
+            srcs.append(y)
+    if opts not in srcs:
+        return "the index lists are derived from another vector than the option lists"
+    return True
+
+
 def R2_flatten(ctx):
     """C17.R2 flattening"""
     F = ctx.F
@@ -285,13 +329,14 @@ def R2_flatten(ctx):
         neg = False
         while d[0] == "un" and d[1] == "Not":
             d, neg = d[2], not neg
-        if not (d[0] == "call" and len(d[2]) == 2 and (itm(d[1], "all") or itm(d[1], "any")) and d[2][1][0] == "closure"):
+        if not (d[0] == "call" and len(d[2]) == 2 and (itm(d[1], "all") or itm(d[1], "any")) and d[2][1][0] in ("closure", "fn")):
             continue
         recv = d[2][0]
         if not (contains(recv, lambda q: q == TOP) and not [x for x in calls_in(recv) if re.search(TRUNC, x[1])]):
             why = "the test does not run over all elements of the array"
             continue
-        crt = cleanA(Terms(F.need(d[2][1][1])).return_term())
+        # (the predicate is a closure, or `Value::is_array` passed by name)
+        crt = cleanA(Terms(F.need(d[2][1][1])).return_term()) if d[2][1][0] == "closure" else ("call", d[2][1][1], (("arg", 2),))
         cneg = False
         while crt[0] == "un" and crt[1] == "Not":
             crt, cneg = crt[2], not cneg
